@@ -487,7 +487,7 @@ theorem filterQuery_canon (o : Opts) (h h' : Option Str) (q : Str)
 /-- what `normalize_url` does to the decoded, lower-cased hostname -/
 def hostSteps (puny : Str → Str) (o : Opts) (h : Str) : Str :=
   let h := if !h.isEmpty && o.stripIrrelevantSubdomains then subdomainSub o.normalizeAmp h else h
-  if o.normalizeAmp then stripAmpPrefix puny h else h
+  if o.normalizeAmp then stripAmpPrefix puny o.stripIrrelevantSubdomains h else h
 
 theorem normHost_eq (puny : Str → Str) (o : Opts) (h : Str) :
     normHost puny o h = if h.isEmpty then h else hostSteps puny o (canonHost puny h) := rfl
